@@ -1,7 +1,10 @@
 //! The [`Circuit`] representation used by the compiler.
 
 use crate::{compile::wires_as_unsigned, env::Env, token::MetaInfo};
-use std::{collections::HashMap, mem};
+use std::{
+    collections::{HashMap, HashSet},
+    mem,
+};
 
 #[cfg(feature = "serde")]
 use serde::{Deserialize, Serialize};
@@ -308,7 +311,8 @@ pub struct PanicResult {
 #[derive(Debug, Clone)]
 pub(crate) struct CachedPanicResult {
     result: PanicResult,
-    cache: HashMap<usize, PanicResult>,
+    /// Conditions that are already part of `result` (each of them implies `has_panicked`).
+    cache: HashSet<usize>,
 }
 
 impl PanicResult {
@@ -432,7 +436,7 @@ impl CircuitBuilder {
             gate_counter,
             panic_gates: CachedPanicResult {
                 result: PanicResult::ok(),
-                cache: HashMap::new(),
+                cache: HashSet::new(),
             },
             consts,
             opts,
@@ -644,8 +648,10 @@ impl CircuitBuilder {
     }
 
     pub fn push_panic_if(&mut self, cond: GateIndex, reason: PanicReason, meta: MetaInfo) {
-        if let Some(existing_panic) = self.panic_gates.cache.get(&cond) {
-            self.panic_gates.result = existing_panic.clone();
+        if self.panic_gates.cache.contains(&cond) {
+            // `cond` already implies `has_panicked`, so raising it again changes nothing (an
+            // earlier panic must never be replaced by the record as it was when `cond` was first
+            // seen)
             return;
         }
         let already_panicked = self.panic_gates.result.has_panicked;
@@ -688,9 +694,7 @@ impl CircuitBuilder {
                 current.panic_type[i],
             );
         }
-        self.panic_gates
-            .cache
-            .insert(cond, self.panic_gates.result.clone());
+        self.panic_gates.cache.insert(cond);
     }
 
     pub fn peek_panic(&self) -> &CachedPanicResult {
@@ -714,18 +718,8 @@ impl CircuitBuilder {
         }: &CachedPanicResult,
     ) -> CachedPanicResult {
         let result = self.mux_uncached_panic(condition, t, f);
-        let mut cache = HashMap::new();
-        for k in cache_t.keys().chain(cache_f.keys()) {
-            match (cache_t.get(k), cache_f.get(k)) {
-                (None, None) => {}
-                (None, Some(result)) | (Some(result), None) => {
-                    cache.insert(*k, result.clone());
-                }
-                (Some(t), Some(f)) => {
-                    cache.insert(*k, self.mux_uncached_panic(condition, t, f));
-                }
-            }
-        }
+        // only a condition raised on both paths is known to be part of the merged record
+        let cache = cache_t.intersection(cache_f).copied().collect();
         CachedPanicResult { result, cache }
     }
 
